@@ -223,7 +223,11 @@ def wl_padding(ctx, rng, case_no):
     for W in widths_for(rng, m):
         console, legacy, ascii_only = console_for(rng, W)
         ctx.count("mon.padding")
-        g = grid(console, Padding(SP.build(child), spec["pad"], expand=spec["expand"], style=spec["style"]))
+        if not spec["expand"] and spec["style"] == "none" and (pt, pr, pb) == (0, 0, 0) and case_no % 2:
+            padding_obj = Padding.indent(SP.build(child), pl)        # the documented short form of (0, 0, 0, n), not expanding
+        else:
+            padding_obj = Padding(SP.build(child), spec["pad"], expand=spec["expand"], style=spec["style"])
+        g = grid(console, padding_obj)
         wit = {"spec": spec, "width": W, "lines": [gtext(l) for l in g][:40]}
         ws = {gwidth(l) for l in g}
         if len(ws) > 1:
@@ -235,6 +239,15 @@ def wl_padding(ctx, rng, case_no):
         if L > W or (spec["expand"] and L != W):
             ctx.violation("padding-width-wrong", dict(wit, L=L))
             continue
+        if not spec["expand"] and W - pl - pr >= 1:
+            # a padding that does not expand adds exactly the requested cells to the child's own width (its reported
+            # maximum at the width left for it - C09 decides that figure), up to the width available
+            from rich.measure import Measurement
+            ctx.count("mon.padding_fits_child")
+            child_max = Measurement.get(console, SP.build(child), W - pl - pr).maximum
+            if L != min(W, child_max + pl + pr):
+                ctx.violation("padding-not-expanding-is-not-child-plus-requested-cells", dict(wit, L=L, child_maximum=child_max))
+                continue
         inner = L - pl - pr
         if inner < 1:
             continue
